@@ -146,9 +146,22 @@ HoldsAtom(r, n, a) ==
   ELSE IF a.op = "istrue" THEN Compare("eq", x, BoolV(TRUE))      \* short boolean syntax
   ELSE Compare(a.op, x, LitValue(r, n, a.lit))
 
-(* formulas: [f |-> "atom", a] | [f |-> "not", x] | [f |-> "and"/"or", x, y] *)
+(* formulas: [f |-> "atom", a] | [f |-> "not", x] | [f |-> "and"/"or", x, y]                       *)
+(*        or [f |-> "prefix", toks, atoms]: Polish notation over "and" "or" "not" and atom names   *)
+(*        (a tuple of strings; atoms is a record mapping each atom name to its atom)              *)
+RECURSIVE EvalP(_, _, _, _, _)
+EvalP(r, n, toks, i, atoms) ==      \* <<three-valued result, index after the sub-formula>>
+  LET t == toks[i] IN
+  IF t = "not" THEN LET s == EvalP(r, n, toks, i + 1, atoms) IN <<Not3(s[1]), s[2]>>
+  ELSE IF t = "and" THEN LET a == EvalP(r, n, toks, i + 1, atoms)  b == EvalP(r, n, toks, a[2], atoms)
+                         IN <<And3(a[1], b[1]), b[2]>>
+  ELSE IF t = "or" THEN LET a == EvalP(r, n, toks, i + 1, atoms)  b == EvalP(r, n, toks, a[2], atoms)
+                        IN <<Or3(a[1], b[1]), b[2]>>
+  ELSE <<HoldsAtom(r, n, atoms[t]), i + 1>>
+
 RECURSIVE Sat3(_, _, _)
 Sat3(r, n, f) == CASE f.f = "atom" -> HoldsAtom(r, n, f.a)
+                   [] f.f = "prefix" -> EvalP(r, n, f.toks, 1, f.atoms)[1]
                    [] f.f = "not" -> Not3(Sat3(r, n, f.x))
                    [] f.f = "and" -> And3(Sat3(r, n, f.x), Sat3(r, n, f.y))
                    [] f.f = "or" -> Or3(Sat3(r, n, f.x), Sat3(r, n, f.y))
